@@ -129,6 +129,9 @@ def parseParamD (s : String) : Option ((Ty × Core3.Ident) × List Nat) :=
   | _ => none
 
 def parseFuncD (rt nm ps bs : String) : Option Func :=
+  -- a trailing `|...` (or `...` alone) in the parameter field marks a variadic function
+  let variadic := ps == "..." || ps.endsWith "|..."
+  let ps := if ps == "..." then "-" else if ps.endsWith "|..." then (ps.dropEnd 4).toString else ps
   let params := if ps == "-" then some [] else (ps.splitOn "|").mapM parseParamD
   let blocks := if bs == "-" then some [] else (bs.splitOn "/").mapM parseBlockD
   -- the name field may carry the header keywords and the clauses behind the parameter list: `<hexname>~<i>,<i>…~<clauses>` (positions in `kLead`, in the order
@@ -147,7 +150,7 @@ def parseFuncD (rt nm ps bs : String) : Option Func :=
     | 'g' :: r => { t with gc := argHex (String.ofList r) }
     | _ => t) {}
   match tyArg rt, params, blocks with
-  | some rt, some ps, some bs => some ⟨rt, argHex nmHex, ps.map (·.1), bs, lead, tail, ps.map (·.2)⟩
+  | some rt, some ps, some bs => some ⟨rt, argHex nmHex, ps.map (·.1), bs, lead, tail, ps.map (·.2), variadic⟩
   | _, _, _ => none
 
 def splitLines (s : Bytes) : List Bytes :=
